@@ -118,6 +118,11 @@ struct Slot {
   int nnz = 0;      // sparse patterns: number of non-zero coefficients per limb (0 = dense)
   int owner = -1;   // task that produces it (-1 = setup/main)
   int liballoc = 0; // allocate through the library's own new_*/delete_* (opaque FFT64 objects only)
+  // arena-style placement fault: `reserve` bytes are kept free right after (side 0) / before (side 1) this slot, and a later
+  // slot with neighbor_of == this slot is placed there, touching it (two buffers carved back to back from one arena)
+  uint64_t reserve = 0;
+  int reserve_side = 0;
+  int neighbor_of = -1;
 };
 
 enum Op {
@@ -231,6 +236,7 @@ struct GenCfg {
   int big_n_pct = 5;            // chance of a large dimension
   int max_big_log2n = 12;
   bool history_mode = false;    // C15: one totally ordered history, each call issued by a random thread
+  bool adjacent_slots = false;  // some buffers are carved back to back from one block
   bool lib_alloc_slots = false; // some opaque objects come from new_vec_znx_dft/big, new_svp_ppol, new_vmp_pmat
   bool shared_setup = false;    // C12: prepared objects and inputs produced in a setup section shared by tasks
   bool thorough = false;
@@ -277,7 +283,7 @@ struct Exec {
   std::vector<std::pair<uint64_t, uint64_t>> obj_seq;  // allocation sequence range of every module / table (conservation)
   // statistics
   uint64_t n_calls = 0, n_protect = 0, n_prefill[SIM_FILL_NKINDS] = {0}, n_off[8] = {0}, n_exact = 0, n_life = 0, n_twin = 0;
-  uint64_t n_model_checks = 0;
+  uint64_t n_model_checks = 0, n_adjacent = 0;
 
   Exec(const Program& p, const ExecEnv& e, Exec* b = nullptr);
   ~Exec();
